@@ -321,6 +321,21 @@ theorem C13_const_uncast (idp symp : List Str) (nodes : List Node) (s : ConstSym
   rw [constUnaliased_direct e3 hnode, constIntValue_of_none e4] at hval
   exact ⟨hval, hf, hd⟩
 
+/-- "A type matching its declaration": an integer constant written with a cast keeps the C type
+    string of the cast as the c:type of its `<type>`; when that string is a key of
+    `ast.type_names` the GIR type name is the fundamental type the table gives for it, whatever
+    else the final namespace `nodes'` holds. -/
+theorem C13_const_type (idp symp : List Str) (nodes nodes' : List Node) (s : ConstSym) (c : ConstNode)
+    (v : Int) (t : Str)
+    (hs : s.constString = none) (hi : s.constInt = some v) (ht : s.baseType = some t)
+    (h : createConst idp symp nodes s = .ok (some c)) :
+    c.declType = t ∧
+    ∀ x, lookupTypeName t = some x → c.fundamental = some x.1 ∧ constTypeName idp nodes' c = some x.1 := by
+  obtain ⟨_, hd, hf⟩ := (createConst_int hs hi h).1 t ht
+  refine ⟨hd, fun x hx => ?_⟩
+  have hfx : c.fundamental = some x.1 := by rw [hf, createTypeFromCType_of_lookup hx]
+  exact ⟨hfx, by unfold constTypeName; rw [hfx]⟩
+
 /-- GENUINE DEFECT, witness 1: `#define FOO_X ((gulong) -1)` in foo.h is emitted with
     value "-1" although gulong is unsigned (no branch of the chain mentions TYPE_ULONG,
     TYPE_SIZE, TYPE_UINTPTR, TYPE_LONG_ULONG). -/
@@ -421,6 +436,13 @@ example : ResolvesTo1 [c!"Foo"] [.alias c!"A" c!"FooA" c!"unsigned short"]
     (by decide +kernel) (by decide +kernel)
 example : unsignedWidth c!"gushort" = some 16 ∧ c!"gushort" ∉ platformUnsigned := by decide +kernel
 example : unsignedWidth c!"gint64" = none := by decide +kernel
+-- C13_const_type: `unsigned short` is a key of type_names (-> gushort)
+example : lookupTypeName c!"unsigned short" = some (c!"gushort", c!"gushort") := by decide +kernel
+example :
+    createConst [c!"Foo"] [c!"foo"] []
+      ⟨c!"FOO_US", some c!"/src/foo.h", none, some 70000, none, false, some c!"unsigned short"⟩
+    = .ok (some ⟨c!"US", some c!"4464", c!"FOO_US", c!"unsigned short", some c!"gushort"⟩) := by
+  decide +kernel
 example :
     createConst [c!"Foo"] [c!"foo"] []
       ⟨c!"FOO_S", some c!"/src/foo.h", some c!"a\"b<é", none, none, false, none⟩
